@@ -3618,13 +3618,17 @@ class Assemble(Array):
         advanced_ndim = builtins.sum(index.ndim for index in self.indices if not isinstance(index, Range))
         compiled_indices = []
         trans = [] # axes of func corresponding to advanced indices
+        range_axes = [] # axes of func corresponding to slices
+        advanced_positions = [] # positions in self.indices of advanced indices, including scalars
         i = 0
-        for index in self.indices:
+        for position, index in enumerate(self.indices):
             j = i + index.ndim
             if isinstance(index, Range):
                 n = builder.compile(index.shape[0])
                 compiled_index = _pyast.Variable('slice').call(n)
+                range_axes.append(i)
             else:
+                advanced_positions.append(position)
                 prefix = len(trans)
                 trans.extend(range(i, j))
                 suffix = advanced_ndim - len(trans)
@@ -3636,9 +3640,9 @@ class Assemble(Array):
         assert i == self.func.ndim
         assert len(trans) == advanced_ndim
         compiled_func = builder.compile(self.func)
-        if advanced_ndim > 1 and trans[-1] - trans[0] != advanced_ndim - 1: # trans is noncontiguous
+        if advanced_ndim and len(advanced_positions) > 1 and advanced_positions[-1] - advanced_positions[0] != len(advanced_positions) - 1: # advanced indices are separated by a slice
             # see https://numpy.org/doc/stable/user/basics.indexing.html#combining-advanced-and-basic-indexing
-            trans.extend(i for i, index in enumerate(self.indices) if isinstance(index, Range))
+            trans.extend(range_axes)
             compiled_func = compiled_func.get_attr('transpose').call(*[_pyast.LiteralInt(i) for i in trans])
         builder.get_block_for_evaluable(self).array_add_at(out, _pyast.Tuple(tuple(compiled_indices)), compiled_func)
 
